@@ -58,7 +58,7 @@ func (c20) Mandatory(tier string) []string {
 		m = append(m, "strace:syscalls-observed", "strace:dry-run:Copy", "strace:dry-run:Move", "strace:dry-run:Remove", "strace:injected:Copy", "strace:injected:Move", "strace:injected:Remove")
 	}
 	return append(m, "fault:Copy:control-copy-cut-short", "fault:Remove:missing-source", "k:0", "k:1", "k:2+", "order:copy-control-after-all-closed", "order:move-control-last",
-		"order:remove-control-last", "hostile:../secret.txt", "hostile:sub/../../secret.txt", "hostile:../../other/o.txt", "hostile:/abs/x", "hostile:sub/inner.txt", "hostile:../", "hostile:..//", "hostile:./", "hostile:/", "hostile:sub/", "hostile:../../other/", "hostile:sub/..", "inotify-events-seen", "dest-has-longer-files-of-the-same-names", "hostile:only-in-checksum-fields", "hostile:control-file-lists-itself", "sequence:Copy then Remove", "sequence:Copy then Move", "sequence:Move then Remove", "sequence:Move then Move")
+		"order:remove-control-last", "hostile:../secret.txt", "hostile:sub/../../secret.txt", "hostile:../../other/o.txt", "hostile:/abs/x", "hostile:sub/inner.txt", "hostile:../", "hostile:..//", "hostile:./", "hostile:/", "hostile:sub/", "hostile:../../other/", "hostile:sub/..", "inotify-events-seen", "dest-has-longer-files-of-the-same-names", "hostile:only-in-checksum-fields", "hostile:control-file-lists-itself", "sequence:harmless-upload-through-the-same-path-first", "sequence:Copy then Remove", "sequence:Copy then Move", "sequence:Move then Remove", "sequence:Move then Move")
 }
 
 type c20Case struct {
@@ -69,6 +69,7 @@ type c20Case struct {
 	Pre      bool     `json:"pre,omitempty"`      // the destination already holds (longer) files of the same names
 	SumNames []string `json:"sumnames,omitempty"` // names listed ONLY in Checksums-Sha1/-Sha256 (never in Files)
 	Then     string   `json:"then,omitempty"`     // a second operation on the same handle after a successful first one: Remove | Move
+	Prime    bool     `json:"prime,omitempty"`    // first a harmless upload with as many files goes through the same path and operation
 	Seed     uint64   `json:"seed"`
 }
 
@@ -112,6 +113,63 @@ func (p c20) run(c *core.C, t *core.T, cs c20Case) {
 	os.MkdirAll(filepath.Join(base, "other"), 0o755)
 	os.MkdirAll(dst, 0o755)
 	write := func(path string, n int) { os.WriteFile(path, r.Bytes(n), 0o644) }
+	if cs.Prime {
+		// the same control-file path saw a harmless upload with the same number of files a moment ago (the
+		// next upload of an incoming queue): nothing learnt then may excuse this one
+		ext := map[string]string{"dsc": ".dsc", "changes": ".changes"}[cs.Handle]
+		var sb strings.Builder
+		if cs.Handle == "dsc" {
+			sb.WriteString("Format: 3.0 (quilt)\nSource: pkg\nBinary: pkg\nArchitecture: any\nVersion: 1.0-1\nMaintainer: A <a@example.org>\nFiles:\n")
+		} else {
+			sb.WriteString("Format: 1.8\nSource: pkg\nBinary: pkg\nArchitecture: source\nVersion: 1.0-1\nDistribution: unstable\nMaintainer: A <a@example.org>\nChanges:\n pkg (1.0-1) unstable; urgency=low\nFiles:\n")
+		}
+		var primed []string
+		for i := range cs.Names {
+			n := fmt.Sprintf("prime_%d.bin", i)
+			primed = append(primed, n)
+			write(filepath.Join(src, n), 50)
+			if cs.Handle == "dsc" {
+				sb.WriteString(fmt.Sprintf(" d41d8cd98f00b204e9800998ecf8427e 50 %s\n", n))
+			} else {
+				sb.WriteString(fmt.Sprintf(" d41d8cd98f00b204e9800998ecf8427e 50 misc optional %s\n", n))
+			}
+		}
+		pp := filepath.Join(src, "pkg_1.0-1"+ext)
+		os.WriteFile(pp, []byte(sb.String()), 0o644)
+		pd := filepath.Join(base, "prime-dst")
+		os.MkdirAll(pd, 0o755)
+		var up0 upload
+		if cs.Handle == "dsc" {
+			if d, err := control.ParseDscFile(pp); err == nil {
+				up0 = d
+			}
+		} else if ch, err := control.ParseChangesFile(pp); err == nil {
+			up0 = ch
+		}
+		if up0 != nil {
+			switch cs.Op {
+			case "Remove":
+				up0.Remove()
+			default:
+				up0.Copy(pd) // Copy leaves the source in place for the clean-up below; Move shares its name check
+				if cs.Op == "Move" {
+					if cs.Handle == "dsc" {
+						if d, err := control.ParseDscFile(pp); err == nil {
+							d.Move(pd)
+						}
+					} else if ch, err := control.ParseChangesFile(pp); err == nil {
+						ch.Move(pd)
+					}
+				}
+			}
+			c.Cover("sequence:harmless-upload-through-the-same-path-first")
+		}
+		os.RemoveAll(pd)
+		os.Remove(pp)
+		for _, n := range primed {
+			os.Remove(filepath.Join(src, n))
+		}
+	}
 	write(filepath.Join(base, "up", "secret.txt"), 300)
 	write(filepath.Join(base, "other", "o.txt"), 310)
 	write(filepath.Join(src, "sub", "inner.txt"), 120)
@@ -318,7 +376,7 @@ func (p c20) run(c *core.C, t *core.T, cs c20Case) {
 		if !plain(n) {
 			hostile = true
 		}
-		if n == ctlName {
+		if n == ctlName || filepath.Clean(n) == ctlName {
 			// the control file lists itself: refusing is as good as treating it as the control file (last);
 			// what must not happen is that it travels as an ordinary member, ahead of the files after it
 			hostile = true
@@ -579,6 +637,9 @@ func (p c20) RunBatch(t *core.T, b core.Batch) {
 			pos := r.Intn(len(names) + 1)
 			names = append(names[:pos], append([]string{hn}, names[pos:]...)...)
 			emit(c20Case{Op: op, Handle: h, Names: names, Fault: "none", Seed: r.U64()})
+			if i%2 == 0 {
+				emit(c20Case{Op: op, Handle: h, Names: names, Fault: "none", Seed: r.U64(), Prime: true})
+			}
 			// a hostile name that appears only in the checksum fields, never in Files
 			emit(c20Case{Op: op, Handle: h, Names: plainNames(r, r.Range(1, 3)), SumNames: []string{hn}, Fault: "none", Seed: r.U64()})
 			if i%3 == 0 {
@@ -587,6 +648,11 @@ func (p c20) RunBatch(t *core.T, b core.Batch) {
 				sn := append([]string{self}, plainNames(r, r.Range(1, 3))...)
 				emit(c20Case{Op: op, Handle: h, Names: sn, Fault: "none", Seed: r.U64()})
 				emit(c20Case{Op: op, Handle: h, Names: sn, Fault: fmt.Sprintf("missing-source:%d", len(sn)-1), Seed: r.U64()})
+				// ... and under another spelling of its own name
+				sn2 := append([]string{}, sn...)
+				sn2[0] = r.Pick([]string{"./", ".//", "sub/../"}) + self
+				emit(c20Case{Op: op, Handle: h, Names: sn2, Fault: "none", Seed: r.U64()})
+				emit(c20Case{Op: op, Handle: h, Names: sn2, Fault: fmt.Sprintf("missing-source:%d", len(sn2)-1), Seed: r.U64()})
 			}
 		case "sequence":
 			first := []string{"Copy", "Move"}[i%2]
